@@ -443,7 +443,7 @@ def rule_r5(ctx) -> List[R.Inst]:
 def _stack_insts(M, q, insts):
     """one definition of stack() in the chart hierarchy: most-derived Stacker, lists = the chart's declared slots"""
     owner = q.rsplit(".", 2)[-2]
-    fn = M.fn(q)
+    fn = M.nfn(q, comps=True)        # (a list filled by an append loop reads as the comprehension it is)
     file, line = fn_loc(M, q)
     rets = returns_of(fn.node)
     inst_ok = len(rets) == 1 and isinstance(rets[0].value, ast.Call) and unparse(rets[0].value.func) in (
@@ -462,10 +462,8 @@ def _stack_insts(M, q, insts):
     flt = "isinstance(_, include_types)"
     if alts is None:
         # not a recognised sequence expression: fall back on the comprehensions the function contains
-        comps = [n for n in walk_no_nested(fn.node) if isinstance(n, ast.ListComp)]
-        insts.append(R.viol("C12.R5", f"{owner}.stack.selection", file, line,
-                            "the lists handed to the Stacker are not (all lists | lists of the requested types) in slot order",
-                            construct="; ".join(unparse(c)[:80] for c in comps)))
+        insts.append(R.undec("C12.R5", f"{owner}.stack.selection", file, line,
+                             "what is handed to the Stacker is not a recognised order-preserving sequence expression over the chart's lists"))
         return
     good = all(a.base == "self.objs.values()" and a.elt == "_" and set(a.filters) <= {flt} for a in alts)
     unfiltered = [a for a in alts if not a.filters]
